@@ -40,6 +40,10 @@ def make_partition_column(col, n, seed):
                         dtype="M8[ns]")
         s = pd.Series(pool[rng.integers(0, len(pool), n)])
         s[nulls] = pd.NaT
+    elif k == "pdt_far":
+        # microsecond timestamps, some of them outside what nanoseconds can hold (1677..2262)
+        pool = np.array(["1600-01-01T00:00:00", "2021-03-04T05:06:07", "2262-04-12T00:00:00", "2500-01-01T00:00:00"][:max(2, card + 1)], dtype="M8[us]")
+        s = pd.Series(pool[rng.integers(0, len(pool), n)])
     elif k == "pdate":
         pool = np.array(["2020-01-01", "2021-06-15", "1999-12-31"][:max(1, card)], dtype="M8[ns]")
         s = pd.Series(pool[rng.integers(0, len(pool), n)])
@@ -74,7 +78,7 @@ def build_dataset_frame(desc):
     for col in fr["cols"]:
         if col["kind"] == "rid":
             data[col["name"]] = pd.Series(np.arange(fr.get("rid0", 0), fr.get("rid0", 0) + n, dtype="int64"))
-        elif col["kind"].startswith("p") and col["kind"] in ALL_PKINDS:
+        elif col["kind"].startswith("p") and col["kind"] in ALL_PKINDS + ["pdt_far"]:
             data[col["name"]] = make_partition_column(col, n, seed)
         else:
             data[col["name"]] = F.make_column(col, n, seed)
